@@ -33,6 +33,7 @@ def judge(ctx, cfg, body, req, resp, tag='TL'):
         st = run['status']
         if st == 'eq':
             ncmp += 1; ctx.count('runs_compared'); ctx.count('calls_logged', run.get('calls', 0))
+            if tag == 'TL' and 'trace' in run: ivm_judge(ctx, cfg, body, req, resp, run)
         elif st in ('src_panic', 'src_nan'):
             ctx.count('runs_source_side_undefined')
         elif st == 'new_panic' and 'not implemented' in (run.get('msg') or ''):
@@ -63,6 +64,44 @@ def judge(ctx, cfg, body, req, resp, tag='TL'):
     ctx.evaluations += 1
     ctx.sample({'config': cfg.tag(), 'body': body.text[:600], 'lowered': (resp.get('new_text') or '')[:600], 'runs': len(resp['runs'])}, cap=2)
     return True
+
+def ivm_compare(req, resp, run):
+    """Execute the emitted instructions on the independent interpreter and compare with the source-side AstVm trace.
+    Returns None (agree), ('unjudged', reason) or ('diff', description)."""
+    from .. import ivm
+    from ..models import eval as EV
+    st = req['states'][run['s']]
+    try:
+        m = ivm.run(resp['instrs'], req['mapfile'], st['regs'], run['d'])
+    except ivm.Unjudged as e:
+        return ('unjudged', str(e).split(':')[0][:40])
+    tr = run['trace']
+    def sv(x): return None if x is None else (('i', x['i']) if 'i' in x else ('f', x['f']))
+    want = [(e[0], e[1], [sv(a) for a in e[2]]) for e in tr['log']]
+    got = [(rt, op, list(args)) for rt, op, args in m.log]
+    if len(want) != len(got): return ('diff', 'log length: source %d, instructions %d' % (len(want), len(got)))
+    for i, (w, g) in enumerate(zip(want, got)):
+        if w != g: return ('diff', 'log[%d]: source %s, instructions %s' % (i, w, g))
+    for r, w in zip(req['check_regs'], tr['regs']):
+        g = m.regs.get(r)
+        g = None if g is None else (('i', g[1]) if g[0] == 'i' else ('f', EV.bits_of(g[1])))
+        if sv(w) != g: return ('diff', 'reg %d: source %s, instructions %s' % (r, sv(w), g))
+    return None
+
+def ivm_judge(ctx, cfg, body, req, resp, run):
+    r = ivm_compare(req, resp, run)
+    if r is None: ctx.count('ivm_runs_agree'); ctx.count('ivm_calls_checked', len(run['trace']['log'])); return
+    if r[0] == 'unjudged': ctx.count('ivm_unjudged'); ctx.seen('ivm_unjudged_reasons', r[1]); return
+    # the decompiler agrees with the source but the instructions themselves do not: a mistake shared by encoder and decoder
+    def fails(text):
+        r2 = dict(req, body=text, states=[req['states'][run['s']]], difficulties=[run['d']], check_regs=check_regs_for(req, text))
+        resp2 = ctx.call(r2)
+        if resp2.get('stage') != 'done' or resp2.get('diag', '').strip(): return False
+        return any(x['status'] == 'eq' and 'trace' in x and (ivm_compare(r2, resp2, dict(x, s=0)) or ('',))[0] == 'diff' for x in resp2.get('runs', []))
+    small = LW.minimise_lines(req['body'], fails) if hasattr(LW, 'minimise_lines') else req['body']
+    ctx.violation('miscompile-ivm:%s:%s' % (r[1].split(' ')[0].rstrip(':'), shape_of(small)), 'source (AstVm) vs emitted instructions (independent interpreter): ' + r[1],
+                  {'req': dict(req, body=small, states=[req['states'][run['s']]], difficulties=[run['d']], check_regs=check_regs_for(req, small)),
+                   'config': cfg.tag(), 'original_body': req['body'], 'new_text': resp.get('new_text'), 'oracle': 'ivm'})
 
 def check_regs_for(req, text):
     """check list for a (possibly reduced) text: non-scratch registers + registers the text itself mentions."""
@@ -138,5 +177,10 @@ def replay(path):
     w.close()
     print(json.dumps(resp, indent=1)[:6000])
     bad = any(x['status'] in ('diff', 'new_panic') for x in resp.get('runs', []))
+    for x in resp.get('runs', []):
+        if x['status'] == 'eq' and 'trace' in x:
+            r = ivm_compare(rec['req'], resp, x)
+            print('independent interpreter:', r or 'agrees')
+            if r and r[0] == 'diff': bad = True
     if bad: print('VIOLATION property=C02 replay=%s' % path)
     return 1 if bad else 0
